@@ -763,6 +763,67 @@ func c16Patches(p *Prog, r *Report) {
 		}
 		r.Check(ok, "D3-spawn-sharing", site+":argument", p.Pos(g.Pos()), why, "goroutines spawned in a loop for the same result receive append(<shared slice>, …): when the shared slice has spare capacity the siblings write the same backing array element (a data race, and all but one vulnerability set is overwritten)")
 	}
+	// round 9: whether a follow-up attempt is spawned does not depend on a table filled from results
+	// received earlier (a memo of "already followed up"): which result arrives first is the
+	// scheduler's choice, so such a test makes the set of attempts — and the patch list — depend on it.
+	if recvHdr != nil {
+		loop := naturalLoop(recvHdr)
+		carried := map[ssa.Value]bool{}
+		forEachInstr(fn, func(b *ssa.BasicBlock, _ int, in ssa.Instruction) {
+			if mu, ok := in.(*ssa.MapUpdate); ok && loop[b] {
+				carried[mu.Map] = true
+			}
+		})
+		var dependsOnCarried func(v ssa.Value, d int) bool
+		dependsOnCarried = func(v ssa.Value, d int) bool {
+			if d > 5 || v == nil {
+				return false
+			}
+			switch x := v.(type) {
+			case *ssa.Lookup:
+				return carried[x.X]
+			case *ssa.Extract:
+				return dependsOnCarried(x.Tuple, d+1)
+			case *ssa.UnOp:
+				return dependsOnCarried(x.X, d+1)
+			case *ssa.BinOp:
+				return dependsOnCarried(x.X, d+1) || dependsOnCarried(x.Y, d+1)
+			case *ssa.Phi:
+				for _, e := range x.Edges {
+					if dependsOnCarried(e, d+1) {
+						return true
+					}
+				}
+			}
+			return false
+		}
+		okMemo := true
+		var at token.Pos
+		for b := range loop {
+			if len(b.Instrs) == 0 {
+				continue
+			}
+			iff, ok := b.Instrs[len(b.Instrs)-1].(*ssa.If)
+			if !ok || !dependsOnCarried(iff.Cond, 0) {
+				continue
+			}
+			blocked := map[*ssa.BasicBlock]bool{recvHdr: true}
+			if ih := loopHeaderOf(b); ih != nil {
+				blocked[ih] = true // within one iteration of the innermost loop
+			}
+			r0, r1 := reachable(b.Succs[0], nil, blocked), reachable(b.Succs[1], nil, blocked)
+			for _, g := range gos {
+				if r0[g.Block()] != r1[g.Block()] {
+					okMemo = false
+					at = iff.Cond.Pos()
+				}
+			}
+		}
+		if at == token.NoPos {
+			at = fn.Pos()
+		}
+		r.Check(okMemo, "D4-fanout", fa.key+":spawn-independent-of-arrival-order", p.Pos(at), "no spawn in the receive loop is decided by a table filled from earlier results", "a follow-up attempt is spawned or skipped depending on a table that earlier received results filled in: the first result to arrive takes the follow-up and its siblings are skipped, so which patches are computed — and the returned list — depends on the order in which the goroutines finish")
+	}
 	// every increment is next to a go: count increments in the function == number of gos
 	ninc := 0
 	forEachInstr(fn, func(_ *ssa.BasicBlock, _ int, in ssa.Instruction) {
